@@ -973,3 +973,14 @@ fire('C16', 'pallet-remove-item-peeks', 'C16.R5', 'Pallet.remove_item',
 silent('C16', 'pallet-add-item-type-checked',
        lambda p: M.insert_before(p, _PAL, 'Pallet.add_item', M.stmt_calling('self.items.append'),
                                  'if item is None:\n    raise ValueError("cannot pack nothing")\nif item in self.items:\n    return'))
+
+# ---- C15.R8: who may consult the policy (seed C15-c)
+fire('C15', 'splitter-reset-instantiates-callable-policy (seed C15-c)', 'C15.R8', 'Splitter.reset::consults(out_edge_selection)',
+     lambda p: M.replace_node(p, N_SPL, 'Splitter.reset', M.if_testing('isinstance(self.out_edge_selection, int)'),
+                              lambda s: 'if callable(self.out_edge_selection):\n    _sel = self.out_edge_selection()\n    if hasattr(_sel, "__next__"):\n        self.out_edge_selection = _sel\n' + s))
+fire('C15', 'machine-reset-primes-generator-policy', 'C15.R8', 'Machine.reset::consults(in_edge_selection)',
+     lambda p: M.replace_node(p, N_MAC, 'Machine.reset', M.if_testing('isinstance(self.in_edge_selection, int)'),
+                              lambda s: 'if hasattr(self.in_edge_selection, "__next__"):\n    policy = self.in_edge_selection\n    next(policy)\n' + s))
+silent('C15', 'source-reset-inspects-policy-without-consulting',
+       lambda p: M.replace_node(p, N_SRC, 'Source.reset', M.if_testing('isinstance(self.out_edge_selection, int)'),
+                                lambda s: 'policy = self.out_edge_selection\nif callable(policy) and not hasattr(policy, "__name__"):\n    print("anonymous policy", repr(policy))\n' + s))
